@@ -13,16 +13,15 @@ namespace CelerVerif.Nav
 open CelerVerif
 
 /-- distances as `WithTop ℝ` (`none` = +∞) -/
-def top (d : Option ℝ) : WithTop ℝ := d
+def top : Option ℝ → WithTop ℝ
+  | none => ⊤
+  | some a => (a : WithTop ℝ)
 
 theorem dlt_iff (a b : Option ℝ) : dlt a b = true ↔ top a < top b := by
   cases a <;> cases b <;> simp [dlt, top]
-  · exact WithTop.coe_lt_coe.symm
-  · exact WithTop.coe_lt_top _
 
 theorem dle_iff (a b : Option ℝ) : dle a b = true ↔ top a ≤ top b := by
   cases a <;> cases b <;> simp [dle, top]
-  · exact WithTop.coe_le_coe.symm
 
 theorem dlt_false_iff (a b : Option ℝ) : dlt a b = false ↔ top b ≤ top a := by
   rw [← not_lt, ← dlt_iff]; simp
@@ -131,17 +130,12 @@ theorem minHit_filter (p : Hit ℝ → Bool) (hp : DownClosed p) (l : List (Hit 
       cases hm : minHit t with
       | none => simp [Option.filter, hph]
       | some m =>
-        by_cases hpm : p m = true
-        · simp only [Option.filter, hpm, if_true]
-          split <;> simp [Option.filter, hpm, hph]
-        · have hpm' : p m = false := by simpa using hpm
-          simp only [Option.filter, hpm', Bool.false_eq_true, if_false]
-          split
-          · next hlt =>
-            exfalso
-            have : m.key ≤ h.key := le_of_lt ((dlt_iff _ _).1 hlt)
-            exact hpm (hp m h this hph)
-          · simp [hph]
+        by_cases hlt : dlt m.dist h.dist = true
+        · have hpm : p m = true := hp m h (le_of_lt ((dlt_iff _ _).1 hlt)) hph
+          simp [Option.filter, hpm, hlt]
+        · by_cases hpm : p m = true
+          · simp [Option.filter, hpm, hlt, hph]
+          · simp [Option.filter, hpm, hlt, hph]
     · have hph' : p h = false := by simpa using hph
       rw [List.filter_cons_of_neg (by simpa using hph)]
       rw [ih]
@@ -149,15 +143,13 @@ theorem minHit_filter (p : Hit ℝ → Bool) (hp : DownClosed p) (l : List (Hit 
       cases hm : minHit t with
       | none => simp [Option.filter, hph']
       | some m =>
-        simp only []
-        split
-        · rfl
-        · next hlt =>
-          have hle : h.key ≤ m.key := (dlt_false_iff _ _).1 (by simpa using hlt)
+        by_cases hlt : dlt m.dist h.dist = true
+        · simp [hlt]
+        · have hle : h.key ≤ m.key := (dlt_false_iff _ _).1 (by simpa using hlt)
           have : p m = false := by
             by_contra hc
             exact hph (hp h m hle (by simpa using hc))
-          simp [Option.filter, this, hph']
+          simp [Option.filter, this, hph', hlt]
 
 /-! ### sorting -/
 
